@@ -85,6 +85,7 @@ def isReservedVerilogKeyword(str):
 
     reserved2001 = ['automatic',
                     'cell','config',
+                    'design',
                     'endconfig','endgenerate',
                     'generate','genvar',
                     'incdir','include','instance',
@@ -92,7 +93,7 @@ def isReservedVerilogKeyword(str):
                     'noshowcancelled',
                     'pulsestyle_ondetect','pulsestyle_onevent',
                     'showcancelled','signed',
-                    'unsigned','use' ]
+                    'unsigned','use','uwire' ]
 
 
     reservedSV = ['accept_on','alias','always_comb','always_ff','always_latch','assert','assume',
